@@ -18,6 +18,8 @@ func init() {
 C01-a release: Remove, Rename (which may replace an existing entry) and OpenFile (O_TRUNC) reach a call that marks clusters unused (SetCluster(_, UnusedMarker())) whose chain head derives from a directory entry taken from the listing - not only from the parent directory's own chain.
 C01-b persist: in every exported mutator of the FAT FileSystem/File types, each mutation of a directory's entry list (create/remove/rename/label entry) and each store to a field of an existing directory entry (size, times, attribute flags, first cluster) is followed, on every path to a success return, by the call that writes that directory to the device.
 C01-c ENOSPC atomicity: in the allocator the out-of-space return (selected by comparing the number of free clusters found with the number needed) is never preceded by a FAT mutation.
+C01-d the allocator's free-cluster scan starts at a constant, or at a hint field that every function marking clusters free also stores: released clusters stay visible to later allocations.
+C01-e writeDirectoryEntries writes every cluster of the directory's chain (no iteration of its cluster loop ends without a device write), so that clusters beyond a shorter listing do not keep old entries.
 Also shares C10-d (a Read never returns more than remains). Decides these clauses, not equality with a reference model.`)
 	register("C08", runC08, `Structural clauses of on-disk FAT soundness, decided statically.
 C08-a mirrors from one buffer: wherever a write is addressed to the secondary FAT / the backup boot sector / the backup FSInfo sector, the same function writes the very same SSA buffer to the primary location.
@@ -611,6 +613,10 @@ func runC01(w *World, r *Report) {
 	c01Persist(w, r)
 	c01PersistByValue(w, r)
 	c01NoSpaceAtomic(w, r)
+	c01ScanStart(w, r)
+	c01DirRewrite(w, r)
+	r.Floor("C01-e", r.countRule("C01-e"), 1)
+	r.Floor("C01-d", r.countRule("C01-d"), 1)
 	r.Floor("C01-a", r.countRule("C01-a"), 3)
 	r.Floor("C01-b", r.countRule("C01-b"), 20)
 	r.Floor("C01-c", r.countRule("C01-c"), 1)
@@ -941,4 +947,96 @@ func c08Terminators(w *World, r *Report) {
 			r.Ok("C08-f", fnName(fn), "chain links are terminated", w.relFile(fn.Pos()), "")
 		}
 	}
+}
+
+// c01ScanStart (C01-d): the free-cluster scan of allocateSpace starts at a constant, or at a value kept in a field
+// of the filesystem that every function marking clusters free also stores (lowers): a hint that is not rewound when
+// clusters are released hides them from every later allocation, and the volume reports "no space" with free clusters.
+func c01ScanStart(w *World, r *Report) {
+	as := w.Method("filesystem/fat12", "FileSystem", "allocateSpace")
+	var hintFields []*types.Var
+	n := 0
+	for _, c := range calls(as, false, func(c ssa.CallInstruction) bool { return callMethodName(c) == "ClusterValue" }) {
+		args := argsOf(c)
+		if len(args) == 0 {
+			continue
+		}
+		ph, ok := stripConv(args[len(args)-1]).(*ssa.Phi)
+		if !ok {
+			continue
+		}
+		n++
+		for k, e := range ph.Edges {
+			// initial value: the edge that does not come from inside the loop (its predecessor is not dominated by the phi's block)
+			if ph.Block().Dominates(ph.Block().Preds[k]) {
+				continue
+			}
+			for _, rt := range w.prov(e, provOpts{phiControl: false}).Roots {
+				if rt.Kind == RField && rt.Owner != nil && rt.Owner.Obj().Name() == "FileSystem" {
+					hintFields = append(hintFields, rt.Field)
+				}
+			}
+		}
+	}
+	if n == 0 {
+		r.Fail("C01-d", fnName(as), "free-cluster scan start", w.relFile(as.Pos()), "no scan over ClusterValue(i) found in allocateSpace")
+		return
+	}
+	if len(hintFields) == 0 {
+		r.Ok("C01-d", fnName(as), "free-cluster scan start does not depend on mutable state", w.relFile(as.Pos()), "starts at a constant")
+		return
+	}
+	// functions that mark a cluster free
+	for _, fn := range w.ModFns {
+		if w.pkgOf(fn) != "filesystem/fat12" || fn.Blocks == nil {
+			continue
+		}
+		frees := false
+		for _, c := range calls(fn, false, func(c ssa.CallInstruction) bool { return callMethodName(c) == "SetCluster" }) {
+			args := argsOf(c)
+			v := stripConv(args[len(args)-1])
+			if k, ok := constInt(v); ok && k == 0 {
+				frees = true
+			}
+			if w.prov(v, provOpts{}).hasCallNamed("UnusedMarker") {
+				frees = true
+			}
+		}
+		if !frees {
+			continue
+		}
+		for _, hf := range hintFields {
+			stored := false
+			allInstrs(fn, func(ins ssa.Instruction) {
+				if st, ok := ins.(*ssa.Store); ok {
+					if _, f, _, ok := fieldOfAddr(st.Addr); ok && f == hf {
+						stored = true
+					}
+				}
+			})
+			r.Check(stored, "C01-d", fnName(fn), "releasing clusters rewinds the scan hint "+hf.Name(), w.relFile(fn.Pos()), "",
+				"allocateSpace starts its free-cluster scan at FileSystem."+hf.Name()+", and this function marks clusters free without storing that field: the released clusters lie below the hint and are never found again (no space left with free clusters)")
+		}
+	}
+}
+
+
+// c01DirRewrite (C01-e): writeDirectoryEntries writes every cluster of the directory's chain: no iteration of its
+// cluster loop ends without a device write. Clusters the shorter listing no longer reaches must be overwritten (with
+// the zero padding of the serialisation), or their old entries are listed again.
+func c01DirRewrite(w *World, r *Report) {
+	wd := w.Method("filesystem/fat12", "FileSystem", "writeDirectoryEntries")
+	var in []ssa.CallInstruction
+	for _, c := range calls(wd, false, isWriteAt) {
+		if len(cycleThrough(c.Block())) > 0 {
+			in = append(in, c)
+		}
+	}
+	if len(in) == 0 {
+		r.Fail("C01-e", fnName(wd), "directory rewritten in all of its clusters", w.relFile(wd.Pos()), "writeDirectoryEntries has no device write in a loop over the directory's clusters")
+		return
+	}
+	bad, why := loopWritesEveryBlock(wd, in[0])
+	r.Check(!bad, "C01-e", fnName(wd), "directory rewritten in all of its clusters", w.relFile(in[0].Pos()), "every iteration of the cluster loop writes its cluster",
+		why+"an iteration of the loop over the directory's clusters can end (or the loop can be left) without writing the cluster: clusters beyond the shorter listing keep their old entries, which are listed again")
 }
